@@ -95,7 +95,7 @@ func sidauthProfile() chain.Profile {
 	p.PayAcc = map[string]string{"d1": "a07", "d2": "a08", "s1": "a09", "s2": "a10"}
 	p.Sids = map[string]string{"s1": "a09", "s2": "a10"}
 	p.Weights = map[string]int{"Blocks": 12, "StoreNew": 10, "StoreUpdate": 14, "Complete": 24, "Cancel": 3, "Terminate": 6,
-		"Renew": 6, "Claim": 2, "Permission": 12, "StoreForeign": 6, "StoreSponsored": 4, "SidBind": 5, "SidRotate": 5, "Ready": 8, "CancelAny": 3}
+		"Renew": 6, "Claim": 2, "Permission": 12, "StoreForeign": 6, "StoreSponsored": 4, "SidBind": 7, "SidRotate": 7, "Ready": 8, "CancelAny": 3, "ExAccountStore": 10}
 	p.Adversarial = 40
 	return p
 }
@@ -530,12 +530,13 @@ type Step struct {
 }
 
 type StepOut struct {
-	Step   int              `json:"step"`
-	Op     string           `json:"op"`
-	Block  *chain.BlockOut  `json:"block,omitempty"`
-	Blocks []chain.BlockOut `json:"blocks,omitempty"`
-	State  *chain.State     `json:"state,omitempty"`
-	Note   string           `json:"note,omitempty"`
+	Step   int                          `json:"step"`
+	Op     string                       `json:"op"`
+	Block  *chain.BlockOut              `json:"block,omitempty"`
+	Blocks []chain.BlockOut             `json:"blocks,omitempty"`
+	State  *chain.State                 `json:"state,omitempty"`
+	Note   string                       `json:"note,omitempty"`
+	Stores map[string]map[string]string `json:"stores,omitempty"`
 }
 
 func cmdReplica(args []string) {
@@ -628,6 +629,8 @@ func cmdReplica(args []string) {
 			if *mode == "full" {
 				emit(StepOut{Step: i, Op: "simulate", Note: r.Simulate(st.Tx)})
 			}
+		case "stores":
+			emit(StepOut{Step: i, Op: "stores", Stores: r.DumpStores()})
 		case "setround":
 			// compensation for the known export gap (the super-node cursor is not part of x/node's genesis): the cursor
 			// is put back by hand so that the REST of an imported chain's behaviour can still be compared
